@@ -142,12 +142,8 @@ impl Static {
         if own.scopes.iter().any(|s| s.iter().any(|x| x == name)) {
             return Some(true);
         }
-        // enclosing function contexts (not the global one): a closure reference
-        for c in self.ctxs[1..n.saturating_sub(1).max(1)].iter().rev() {
-            if !c.is_global && c.scopes.iter().any(|s| s.iter().any(|x| x == name)) {
-                return Some(false);
-            }
-        }
+        // The locals of an enclosing function are not visible (C09: a function body sees its own parameters and
+        // locals and the globals): such a name means the global of that name, or nothing at all.
         if n > 1 && self.ctxs[0].scopes.iter().any(|s| s.iter().any(|x| x == name)) {
             return Some(true);
         }
